@@ -1,3 +1,4 @@
+import EdpVerif.Generated.Misc
 import EdpVerif.Lemmas.Frag
 import EdpVerif.Generated.Tags
 /-
@@ -605,5 +606,15 @@ theorem C09_source_constants_consistent :
     Gen.FRAG_DIST_FRAG_HEADER = 69 ∧ Gen.FRAG_DIST_FRAG_CONT = 70 ∧
     Gen.CONN_DIST_FRAG_HEADER = Gen.FRAG_DIST_FRAG_HEADER ∧ Gen.CONN_DIST_FRAG_CONT = Gen.FRAG_DIST_FRAG_CONT ∧
     Gen.DIST_FRAG_HEADER = Gen.FRAG_DIST_FRAG_HEADER := by decide
+
+/-- The state the assembler model carries IS the state the code keeps (regenerated from the source on every run): per
+sequence the count, the slot vector, the pending map, the received count, the atom-cache prefix and the time of the last
+update; per assembler the map of sequences and the timeout. -/
+theorem C09_state_is_the_sources_state :
+    Edp.Gen.STRUCT_FragmentedMessage =
+      ["total_fragments:Option<FragmentCount>", "fragments:Vec<Option<Vec<u8>>>", "pending_fragments:HashMap<u64,Vec<u8>>",
+       "received_count:usize", "atom_cache_data:Option<Vec<u8>>", "last_update:Instant"]
+    ∧ Edp.Gen.STRUCT_FragmentAssembler = ["pending:HashMap<SequenceId,FragmentedMessage>", "fragment_timeout:Duration"]
+    ∧ Edp.Gen.PROCESS_WIDE_STATE = [] := by decide
 
 end Edp.Props.C09
